@@ -30,16 +30,49 @@ def policy_dict(scn):
     elif p == 'a1v1only':
         d['attribute_restrictions'] = {'givenName': ['^%s$' % VAL['v1']], 'mail': None}
     elif p == 'perSP_a1':
-        pol[env.SP] = {'attribute_restrictions': {'GivenName': None}}
+        for e in sp_ids():
+            pol[e] = {'attribute_restrictions': {'GivenName': None}}
     elif p == 'perSP_fallback_a2':
         d['attribute_restrictions'] = {'mail': None}
-        pol[env.SP] = {'lifetime': {'minutes': 5}}
+        for e in sp_ids():
+            pol[e] = {'lifetime': {'minutes': 5}}
     elif p == 'ec':
         d['entity_categories'] = ['refeds']
     elif p == 'ec_names1':
         d['entity_categories'] = ['refeds']
         d['attribute_restrictions'] = {'givenName': None}
     return pol
+
+
+DECLS = ['none', 'req_a1', 'req_a1_v2', 'req_a3_opt_a2', 'opt_a2', 'req_a1_v9']
+
+
+def sp_id(decl, has_cat):
+    return '%s/%s/%s' % (env.SP, decl, 'rs' if has_cat else 'plain')
+
+
+def sp_ids():
+    return [sp_id(d, c) for d in DECLS for c in (False, True)]
+
+
+_FED = []
+
+
+def federation():
+    """metadata of the twelve kinds of provider one server serves"""
+    if _FED:
+        return _FED[0]
+    _FED.append(_federation())
+    return _FED[0]
+
+
+def _federation():
+    extra = ('<md:Extensions><mdattr:EntityAttributes xmlns:mdattr="urn:oasis:names:tc:SAML:metadata:attribute">'
+             '<saml:Attribute xmlns:saml="%s" Name="http://macedir.org/entity-category" '
+             'NameFormat="urn:oasis:names:tc:SAML:2.0:attrname-format:uri"><saml:AttributeValue>%s</saml:AttributeValue>'
+             '</saml:Attribute></mdattr:EntityAttributes></md:Extensions>' % (sb.NS_SAML, RS))
+    return [env.sp_metadata(entity_id=sp_id(d, c), requested=requested({'decl': d}), extra=extra if c else '')
+            for d in DECLS for c in (False, True)]
 
 
 def requested(scn):
@@ -52,14 +85,8 @@ def requested(scn):
 
 def replay(case):
     scn = case['scn']
-    extra = ''
-    if scn['hasCat']:
-        extra = ('<md:Extensions><mdattr:EntityAttributes xmlns:mdattr="urn:oasis:names:tc:SAML:metadata:attribute">'
-                 '<saml:Attribute xmlns:saml="%s" Name="http://macedir.org/entity-category" '
-                 'NameFormat="urn:oasis:names:tc:SAML:2.0:attrname-format:uri"><saml:AttributeValue>%s</saml:AttributeValue>'
-                 '</saml:Attribute></mdattr:EntityAttributes></md:Extensions>' % (sb.NS_SAML, RS))
-    md = [env.sp_metadata(requested=requested(scn), extra=extra)]
-    idp = both_roles(md, policy_dict(scn))
+    idp = both_roles(federation(), policy_dict(scn))
+    me = sp_id(scn['decl'], scn['hasCat'])
     identity = {}
     for a, vals in scn['ident'].items():
         if vals:
@@ -69,11 +96,20 @@ def replay(case):
     obs = {'identity': identity, 'paths': {}}
     nid = NameID(format=NAMEID_FORMAT_TRANSIENT, text='subject-1')
     calls = {
-        'authn': lambda: idp.create_authn_response(dict(identity), 'id1', env.SP_ACS_POST, env.SP, name_id=nid,
-                                                   authn={'class_ref': sb.PASSWORD, 'authn_auth': 'x'}),
+        'authn': lambda ident=identity, e=me: idp.create_authn_response(dict(ident), 'id1', env.SP_ACS_POST, e, name_id=nid,
+                                                                       authn={'class_ref': sb.PASSWORD, 'authn_auth': 'x'}),
         # the attribute-authority path: policy of the "aa" service, no best effort
-        'attribute': lambda: idp.create_attribute_response(dict(identity), 'id1', env.SP_ACS_POST, env.SP, name_id=nid),
+        'attribute': lambda ident=identity, e=me: idp.create_attribute_response(dict(ident), 'id1', env.SP_ACS_POST, e, name_id=nid),
     }
+    prev = scn.get('prev') or {'served': False}
+    if prev['served']:
+        full = {'givenName': [VAL['v1'], VAL['v2']], 'mail': [VAL['v1']], 'title': [VAL['v1']]}
+        other = sp_id(prev['decl'], prev['hasCat'])
+        for call in calls.values():
+            try:
+                call(full, other)
+            except Exception:
+                pass
     for path, call in calls.items():
         o = {'exc': None}
         try:
@@ -110,7 +146,7 @@ _BOTH = {}
 
 def both_roles(md, policy):
     """an entity that is IdP and attribute authority with the same release policy"""
-    key = json.dumps([md, policy], sort_keys=True, default=str)
+    key = json.dumps([len(md), policy], sort_keys=True, default=str)
     if key not in _BOTH:
         conf = env.idp_config(metadata_xml=md, policy=policy)
         conf['service']['aa'] = {'endpoints': {'attribute_service': [('https://idp1.verif.example/attr', env.BINDING_SOAP)]}, 'policy': policy}
@@ -129,6 +165,9 @@ def main():
     if pinned.violated != 'PipelineMeetsContract':
         raise fw.Machinery('vacuity control failed: the pinned design should violate the contract')
     cases = sorted(res.cases, key=lambda c: json.dumps(c['scn'], sort_keys=True))
+    if chk.tier != 'thorough':
+        # every request on a server that has served nobody before, a seeded sample of the ones with a predecessor
+        cases = [c for c in cases if not c['scn']['prev']['served'] or chk.rng.random() < 0.08]
     some = 0
     for case, obs, err in fw.pmap(replay, cases, init=spc.init_worker, chunk=16):
         if err:
@@ -139,6 +178,7 @@ def main():
         key = dict((k, v) for k, v in scn.items() if k != 'ident')
         key['ident'] = json.dumps(scn['ident'], sort_keys=True)
         key['raises'] = case['raises']
+        key['prev'] = json.dumps(scn['prev'], sort_keys=True)
         for path, o in sorted(obs['paths'].items()):
             pkey = dict(key, path=path)
             if o['outcome'] == 'exception':
@@ -159,8 +199,9 @@ def main():
             chk.sample({'scn': scn, 'path': path, 'allowed': case['allowed'], 'released': rel, 'outcome': o['outcome']}, limit=5)
     if some == 0 and not chk.violations:
         raise fw.Machinery('nothing was ever released: templates broken')
-    chk.cov['exhaustive'] = True
-    chk.cov['rule'] = ('all 4 032 scenarios of IdPRelease.tla: identity (3 attributes, multi-valued, non-ASCII, upper-case key) x 7 policy '
+    chk.cov['exhaustive'] = chk.tier == 'thorough'
+    chk.cov['rule'] = ('scenarios of IdPRelease.tla, each on a long-lived server that serves twelve kinds of provider and has just served '
+                      'none or one of them (thorough: all 52 416; quick: the 4 032 without predecessor and a seeded 8% of the rest): identity (3 attributes, multi-valued, non-ASCII, upper-case key) x 7 policy '
                       'shapes (none, names, value pattern, per-SP entry, per-SP entry falling back to default, entity categories, '
                       'categories + names) x 6 SP declarations (required/optional, value constraints, unsatisfiable) x entity category '
                       'x fail_on_missing_requested')
